@@ -37,7 +37,7 @@ def run(ctx):
     r_lay, _ = layout.rule_layout("C11", repo, layout.std_tables(repo.P))
     N = norm.Norm(repo)
     rules = [shared.rule_eq_derived(repo, ["crate::Gt", "crate::fields::fq12::Fq12", "crate::fields::fq4::Fq4", "crate::fields::fq2::Fq2", "crate::fields::fp::Fq", "crate::u256::U256"]),
-             r_lay, shared.rule_red(repo), rule_gt_forward(repo), field.rule_tower_consts("C11", repo), field.rule_zero_cover("C11", repo), field.rule_ladder("C11", repo, LADDERS), field.rule_bits("C11", repo),
+             r_lay, shared.rule_red(repo), rule_gt_forward(repo), field.rule_tower_consts("C11", repo), field.rule_zero_cover("C11", repo), field.rule_tower_shapes("C11", repo), field.rule_ladder("C11", repo, LADDERS), field.rule_bits("C11", repo),
              field.rule_ops_forward("C11", repo, ["crate::fields::fq12::Fq12", "crate::fields::fq4::Fq4"])]
     return report.emit(
         "C11", ctx.tier, ctx.seed, rules, ctx.started,
